@@ -13,6 +13,7 @@ Candidate kinds
   echo    : files -> `ironplcc echo <file>`;   expect_contains / expect_not_contains / expect "reject"
   tokens  : file  -> `ironplcc tokenize`;      expect list of [type, line, col] for selected token texts
   lsp     : scripted JSON-RPC session -> expectations on published diagnostics / semantic tokens
+  cli     : list of invocations -> exit status, the line OK and coded diagnostics must agree (C13), expected status, same_as
 """
 import glob
 import json
@@ -157,16 +158,48 @@ def run_candidate(c):
         names = []
         for name, content in (c.get("files") or {}).items():
             path = os.path.join(d, name)
+            os.makedirs(os.path.dirname(path), exist_ok=True)
             mode = "wb" if isinstance(content, dict) else "w"
             if isinstance(content, dict):
                 open(path, "wb").write(bytes.fromhex(content["hex"]))
             else:
                 open(path, "w", encoding="utf-8", newline="").write(content)
             names.append(name)
+        for sub in c.get("dirs", []):
+            os.makedirs(os.path.join(d, sub), exist_ok=True)
         kind = c["kind"]
         obs = {}
         bad = []
-        if kind == "check":
+        if kind == "cli":
+            # the command-line contract itself (C13) on a list of invocations: exit status, the line OK and the coded
+            # diagnostics on stderr must agree; optionally the expected status and "same verdict as run k"
+            runs = []
+            for k, r in enumerate(c["runs"]):
+                rc, so, se = run(binp, r["args"], d)
+                plain = ANSI.sub("", se)
+                ncodes = len(re.findall(r"error\[P\d{4}\]", plain))
+                ok_line = any(l.strip() == "OK" for l in so.splitlines())
+                cmd = r["args"][0]
+                runs.append({"args": r["args"], "exit": rc, "ok_line": ok_line, "coded_diagnostics": ncodes, "codes": codes_of(plain)})
+                what = " ".join(r["args"])
+                if rc not in (0, 1):
+                    bad.append("`%s`: crash/abnormal exit %s" % (what, rc))
+                if cmd in ("check", "tokenize") and (rc == 0) != ok_line:
+                    bad.append("`%s`: exit status %s but OK %s" % (what, rc, "printed" if ok_line else "not printed"))
+                if cmd == "echo" and ok_line:
+                    bad.append("`%s`: echo printed OK" % what)
+                if rc == 0 and ncodes:
+                    bad.append("`%s`: exit status 0 with %d coded diagnostic(s) on stderr" % (what, ncodes))
+                if rc != 0 and ncodes == 0:
+                    bad.append("`%s`: exit status %s without any coded diagnostic on stderr" % (what, rc))
+                if "exit" in r and (rc == 0) != (r["exit"] == 0):
+                    bad.append("`%s`: exit status %s, expected %s" % (what, rc, "0" if r["exit"] == 0 else "non-zero"))
+                if "same_as" in r:
+                    o = runs[r["same_as"]]
+                    if (o["exit"] == 0) != (rc == 0) or o["codes"] != runs[-1]["codes"]:
+                        bad.append("`%s`: verdict %s %s differs from `%s`: %s %s" % (what, rc, runs[-1]["codes"], " ".join(o["args"]), o["exit"], o["codes"]))
+            obs = {"runs": runs}
+        elif kind == "check":
             rc, so, se = run(binp, ["check"] + names, d)
             cs = codes_of(so + se)
             obs = {"exit": rc, "codes": cs, "ok_line": "OK" in so.split()}
